@@ -2,6 +2,7 @@ import SLE.Lemmas.EvmSim
 import SLE.Gen.OpcodeTemplates
 import SLE.Lemmas.MachineFacts
 import SLE.Lemmas.PathSim
+import SLE.Lemmas.LitInv
 /-!
 # C07 — every explored path computes what a concrete EVM computes on that path
 
@@ -170,5 +171,14 @@ theorem C07_jumpi_both_ways {bytes : List Nat} {code : List Disasm.Instr} (H : P
         PathSim.RStep (PathSim.arr bytes) (PathSim.dat bytes) (c.ip, cs) (t, cs2) ∧
         Rel { (execOp c code (.op 0x57) d ctr).d with forkPoint := c.ip } cs2 :=
   PathSim.jumpi_sim_partial H hi hR hT he
+
+
+/-- The path simulation with computed jump targets (only keys and offsets literal). -/
+theorem C07_path_sim_stored_keys_partial {bytes : List Nat} {code : List Disasm.Instr}
+    (H : PathSim.Prog bytes code) (hsc : PathSim.InScope bytes) (hk : LitInv.KeysLiteral code)
+    (cfg : Cfg) (hlim : 1 ≤ cfg.valueLimit) (fuel : Nat) :
+    ∀ t ∈ (run cfg code fuel (initVM cfg code)).stored,
+      ∃ pc cs k, PathSim.RReach (PathSim.arr bytes) (PathSim.dat bytes) (pc, cs) ∧ Rel t.d (PathSim.dropK k cs) :=
+  LitInv.stored_state_matches_a_path_keys H hsc hk cfg hlim fuel
 
 end SLE.C07
